@@ -345,7 +345,12 @@ impl Runtime {
             },
         }
         #[cfg(feature = "time")]
-        self.timer_runtime.borrow_mut().wake();
+        {
+            let expired = self.timer_runtime.borrow_mut().take_expired();
+            for waker in expired {
+                waker.wake();
+            }
+        }
     }
 
     /// Get buffer pool of the runtime.
